@@ -893,8 +893,7 @@ func (e *env) setup(res *vkit.Result) string {
 		e.guardCR = false
 	}
 	if e.c.Cold {
-		e.guardAud = true // not probed (the probe would warm the provider up); no op of a cold case shares a device code
-		return ""
+		return "" // the device probe would warm the provider up; no op of a cold case shares a device code
 	}
 
 	// token pools
@@ -1167,7 +1166,6 @@ func runConc(c Case) *vkit.Result {
 			}
 		}
 	}
-	_ = nondet
 	var ks, ps []string
 	for k := range kinds {
 		ks = append(ks, k)
@@ -1203,11 +1201,12 @@ func run(c Case) *vkit.Result {
 
 const rule = "conc: G in 2..8 goroutines x 2..15 ops (36 kinds: authorize/login/callback/token of every grant, userinfo, introspection, revocation, end-session, device polls " +
 	"of one shared device code, discovery, keys directly on ONE provider (both routers); CodeExchange, Userinfo, RefreshTokens, EndSession, RevokeToken, VerifyTokens, " +
-	"ClientCredentials, device calls, AuthURL/CodeExchange handlers, rs.Introspect (secret and JWT profile), ExchangeToken, remote key set, JWT-profile token source, Discover through a redirect " +
-	"on ONE RP / RS / exchanger / key set / token source over ONE caller-supplied http.Client, in-process transport) in the -race binary; " +
-	"order: 2..10 steps of constructing providers (8 endpoint options, bulk option, both routers), RPs (OIDC / OAuth), resource servers, token exchangers with the package default " +
+	"ClientCredentials, device calls, ONE AuthURLHandler and ONE CodeExchangeHandler(UserinfoCallback), rs.Introspect (secret and JWT profile), ExchangeToken, remote key set, JWT-profile token source, " +
+	"Discover through a redirect on ONE RP / RS / exchanger / key set / token source over ONE caller-supplied http.Client, in-process transport) in the -race binary; " +
+	"free or lock-step schedule, warm or cold (nothing touches the provider before the goroutines start), independent or identical programs; " +
+	"order: 2..12 steps of constructing providers (8 endpoint options, bulk option, both routers), RPs (OIDC / OAuth), resource servers, token exchangers with the package default " +
 	"or a shared caller-supplied http.Client, and calls on them, with a deep snapshot and a behaviour re-probe of every instance after every step; " +
-	"non-trivial: conc = >=2 goroutines and >=4 executed ops, distinct = (router, alg, token type, G, set of op-kind pairs that ran in different goroutines); " +
+	"non-trivial: conc = >=2 goroutines and >=4 executed ops, distinct = (router, alg, token type, schedule, cold, G, set of op-kind pairs that ran in different goroutines); " +
 	"order = >=2 instances or >=1 call after a constructor, distinct = step sequence"
 
 var prop = vkit.Prop[Case]{ID: "C20", Rule: rule, Gen: genConc, Run: run, Track: true}
